@@ -21,7 +21,7 @@ func init() {
 			"for every put* method the sizing pass (prepEncoder) and the writing pass (realEncoder) account for the same number of bytes, compared as symbolic linear forms per argument condition (C09.prep-real); length and CRC fields are written and checked over the same byte range with the same polynomial per container (C09.crc-len, the polynomial via C09.mirror tokens). " +
 			"no encoding step whose error is non-nil is answered with `return nil` or ignored (C09.enc-err, 338 steps). " +
 			"NOT covered: value-level equality (which bytes), compression codecs, varint arithmetic, agreement with the Kafka specification itself.",
-		Rules: []func(*Ctx){c09Mirror, c09Order, c09Balance, c09Keys, c09PrepReal, c09Null, c09CrcLen, c09EncErr},
+		Rules: []func(*Ctx){c09Mirror, c09Order, c09Balance, c09Keys, c09PrepReal, c09Null, c09CrcLen, c09EncErr, c09EarlyAccept},
 	})
 }
 
@@ -862,5 +862,83 @@ func c09EncErr(c *Ctx) {
 			}
 			c.Check(!bad, rule, fn, "err:"+p.CalleeName(&cl.Call), cl, "a failure of this encoding step is never answered with success", "the function returns nil although this encoding step failed: a request or record that could not be encoded completely is sent as if it were", path)
 		})
+	}
+}
+
+// c09EarlyAccept: `if n == 0 { return nil }` right after an array length is a common shortcut in decoders.  It is
+// only right when nothing follows the array on the wire: the encoder writes the fields after an empty array all
+// the same, so a decoder that stops there leaves them unread and the frame is refused ("invalid length").  The
+// automata of C09.mirror treat the test on n as a free choice and cannot see this.
+func c09EarlyAccept(c *Ctx) {
+	p := c.P
+	rule := "C09.early-accept"
+	c.Doc(rule, "every decode method: where a successful return is taken because a decoded array length is 0, no read from the decoder is reachable after the loop over that array on the other branch (version-gated trailing fields included)")
+	c.Floor(rule, 8)
+	isRead := func(it Item) bool {
+		cl, ok := it.In.(*ssa.Call)
+		if !ok {
+			return false
+		}
+		if cl.Call.IsInvoke() {
+			n, _ := NamedOf(cl.Call.Value.Type())
+			return n == "packetDecoder"
+		}
+		cal := cl.Call.StaticCallee()
+		return cal != nil && cal.Name() == "decode" && cal.Pkg == p.Sarama
+	}
+	for _, fn := range p.Fns {
+		if fn.Pkg != p.Sarama || fn.Name() != "decode" || fn.Signature.Recv() == nil {
+			continue
+		}
+		fi := Info(fn)
+		reg := WholeFn(fn)
+		for _, b := range fn.Blocks {
+			iff, ok := lastInstr(b).(*ssa.If)
+			if !ok {
+				continue
+			}
+			bo, ok := iff.Cond.(*ssa.BinOp)
+			if !ok || (bo.Op != token.EQL && bo.Op != token.LEQ && bo.Op != token.LSS) || !ConstInt(0)(bo.Y) && !(bo.Op == token.LSS && ConstInt(1)(bo.Y)) {
+				continue
+			}
+			n := bo.X
+			if !p.ResultOf(0, "packetDecoder.getArrayLength", "packetDecoder.getCompactArrayLength")(n) {
+				continue
+			}
+			// the true branch returns nil without reading
+			tb := b.Succs[0]
+			r, isRet := lastInstr(tb).(*ssa.Return)
+			if !isRet || len(tb.Instrs) > 3 {
+				continue
+			}
+			rv := RetVals(r)
+			if cst, ok := rv[len(rv)-1].(*ssa.Const); !ok || cst.Value != nil {
+				continue
+			}
+			// loops bounded by n on the other branch, and what is read after them
+			var after []Item
+			for _, l := range fi.Loops {
+				bounded := false
+				for _, in := range l.Head.Instrs {
+					if cmp, ok := in.(*ssa.BinOp); ok && cmp.Op == token.LSS && cmp.Y == n {
+						bounded = true
+					}
+				}
+				if !bounded {
+					continue
+				}
+				for _, s := range l.Head.Succs {
+					if !l.Blocks[s] {
+						after = append(after, reg.From(Pt{s, 0}).Find(isRead)...)
+					}
+				}
+			}
+			var at ssa.Instruction = iff
+			if len(after) > 0 {
+				at = after[0].Instr()
+			}
+			c.Check(len(after) == 0, rule, fn, "empty-array-shortcut", at, "the decoder stops at an empty array only where nothing follows the array",
+				"the decoder returns successfully as soon as an array length is 0, but further fields follow the array (on the other branch they are read after the loop): a value with an empty array is encoded with those fields and cannot be decoded again — the frame is refused with \"invalid length\"", nil)
+		}
 	}
 }
